@@ -3,7 +3,7 @@
 // DataStreams::recv_stream_control calls through Outgoing::update_window) on a stream in the Ready
 // state with an arbitrary current window: `assert!(max_stream_data <= VARINT_MAX)` is not reached
 // (the field is a VarInt), no panic, the window never shrinks.
-// sndbuf.rs: std VecDeque -> verif_model::VecDeque.
+// (sndbuf.rs keeps std VecDeque: with nothing written no element of it is touched)
 use super::*;
 
 const M62: u64 = 1u64 << 62;
